@@ -77,6 +77,9 @@ func runC09(x *X) {
 			})
 	})
 	c09TallHook(x, targets, full)
+	for _, f := range c09ExtraFamilies {
+		f(x)
+	}
 	longs := LongTexts(`"`)
 	x.Explore("long-texts", ExploreOpts{ShardDepth: 1, Bound: fmt.Sprintf("%d long texts (dense lengths around 64..4096 bytes, hostile characters at start/middle/doubled/end/only, many lines) as header and body cell; all render targets", len(longs))}, func(c *Chooser) {
 		s := longs[c.Choose(len(longs))]
@@ -165,6 +168,8 @@ func init() {
 }
 
 var c09TallHook func(x *X, targets []Target, full *BuildCfg)
+
+var c09ExtraFamilies []func(x *X)
 
 func c09RenderAll(x *X, c *Chooser, b *Builder, targets []Target) {
 	tags := b.Tags()
